@@ -1740,9 +1740,12 @@ Proof.
   assert (Hsh : cmd_shape free_sig [ng2] = true).
   { unfold is_brace_arg in Kng2. apply groupkind_eqb_eq in Kng2.
     destruct ng2 as [sp k o b c]. cbn [arg_kind] in Kng2. subst k. reflexivity. }
-  rewrite <- Hsig in Hsh, Hfol.
+  assert (Hsh' : cmd_shape (signature_of (ttext en)) [ng2] = true)
+    by (rewrite Hsig; exact Hsh).
+  assert (Hfol' : cmd_follow (signature_of (ttext en)) [ng2] rest = true)
+    by (rewrite Hsig; exact Hfol).
   destruct (cmd_head_read en [ng2] (Forall_cons _ Hng2 (Forall_nil _))
-              strict m rest Hm Hsp Hsh Wc Hfol) as [f1 F1].
+              strict m rest Hm Hsp Hsh' Wc Hfol') as [f1 F1].
   exists f1. intros f Hf. rewrite read_command_skip1.
   assert (E := F1 f Hf). cbv beta in E.
   unfold flat_args in E. cbn [app map concat] in E. rewrite app_nil_r in E. exact E.
@@ -1920,14 +1923,15 @@ Qed.
 
 (* ------------------------------------------------------- the induction *)
 
-Theorem PP_all : forall d, PPd d.
+Lemma PP_case_leaf t : PPd (DLeaf t).
 Proof.
-  apply (doc_ind' PPd PPa).
-  - (* leaf *)
-    intros t skip strict m rest _ _ Hwf _ _. exists 1%nat. intros f Hf. destruct f as [|f]; [lia|].
+    intros skip strict m rest _ _ Hwf _ _. exists 1%nat. intros f Hf. destruct f as [|f]; [lia|].
     cbn [flat tree app]. apply read_expr_leaf. exact Hwf.
-  - (* brace group *)
-    intros o b c Hb skip strict m rest _ _ Hwf _ _. rewrite wf_group in Hwf.
+Qed.
+
+Lemma PP_case_group o b c : Forall PPd b -> PPd (DGroup o b c).
+Proof.
+    intros Hb skip strict m rest _ _ Hwf _ _. rewrite wf_group in Hwf.
     apply andb_true_iff in Hwf. destruct Hwf as [Hwf H3].
     apply andb_true_iff in Hwf. destruct Hwf as [H1 H2].
     assert (Wa : wf_arg (mode_is_math MNonMath) (Arg None GBrace o b c) = true).
@@ -1939,8 +1943,11 @@ Proof.
     rewrite flat_group. rewrite <- app_comm_cons.
     rewrite (read_expr_group_open f skip strict m o _ H1).
     apply (F1 f). lia.
-  - (* command *)
-    intros e n args Hargs skip strict m rest Hm _ Hwf Hfol _. rewrite wf_cmd in Hwf.
+Qed.
+
+Lemma PP_case_cmd e n args : Forall PPa args -> PPd (DCmd e n args).
+Proof.
+    intros Hargs skip strict m rest Hm _ Hwf Hfol _. rewrite wf_cmd in Hwf.
     apply andb_true_iff in Hwf. destruct Hwf as [Hwf H4].
     apply andb_true_iff in Hwf. destruct Hwf as [Hwf H3].
     apply andb_true_iff in Hwf. destruct Hwf as [H1 H2].
@@ -1951,8 +1958,11 @@ Proof.
     rewrite flat_cmd. rewrite <- !app_comm_cons.
     apply (read_expr_plain_cmd f skip strict m e n _ _ rest H1 H2).
     apply F1. lia.
-  - (* math region *)
-    intros k o b c Hb skip strict m rest _ _ Hwf _ _. rewrite wf_math in Hwf.
+Qed.
+
+Lemma PP_case_math k o b c : Forall PPd b -> PPd (DMath k o b c).
+Proof.
+    intros Hb skip strict m rest _ _ Hwf _ _. rewrite wf_math in Hwf.
     apply andb_true_iff in Hwf. destruct Hwf as [Hwf H3].
     apply andb_true_iff in Hwf. destruct Hwf as [H1 H2].
     apply opens_math_kind_spec in H1. destruct H1 as [Hk _].
@@ -1962,8 +1972,13 @@ Proof.
     rewrite flat_math. rewrite <- app_comm_cons, <- app_assoc. cbn [app].
     rewrite (C12_math_opens f skip strict m o _ k Hk).
     apply F1. lia.
-  - (* environment *)
-    intros e b ng xargs body e2 en ng2 Hng Hxargs Hbody Hng2 skip strict m rest Hm Hsk Hwf Hfol _.
+Qed.
+
+Lemma PP_case_env e b ng xargs body e2 en ng2 :
+  PPa ng -> Forall PPa xargs -> Forall PPd body -> PPa ng2 ->
+  PPd (DEnv e b ng xargs body e2 en ng2).
+Proof.
+    intros Hng Hxargs Hbody Hng2 skip strict m rest Hm Hsk Hwf Hfol _.
     rewrite wf_env in Hwf.
     apply andb_true_iff in Hwf. destruct Hwf as [Hwf W13].
     apply andb_true_iff in Hwf. destruct Hwf as [Hwf W12].
@@ -1992,9 +2007,12 @@ Proof.
     { unfold tail. change (e2 :: en :: flat_arg ng2 ++ rest)
                      with (e2 :: [] ++ (en :: flat_arg ng2 ++ rest)).
       rewrite <- (cmd_follow_ext free_sig (ng :: xargs) (flat_list body) e2 [] _ Ne2). exact W7. }
-    rewrite <- Hsig in W7a, Fb.
+    assert (W7a' : cmd_shape (signature_of (ttext b)) (ng :: xargs) = true)
+      by (rewrite Hsig; exact W7a).
+    assert (Fb' : cmd_follow (signature_of (ttext b)) (ng :: xargs) (flat_list body ++ tail) = true)
+      by (rewrite Hsig; exact Fb).
     destruct (cmd_head_read b (ng :: xargs) (Forall_cons _ Hng Hxargs)
-                strict m (flat_list body ++ tail) Hm Hsp W7a Wc Fb)
+                strict m (flat_list body ++ tail) Hm Hsp W7a' Wc Fb')
       as [f1 F1].
     (* the body and \end *)
     assert (Wb : wf_seq (mode_is_math m) CEnv body tail = true).
@@ -2017,8 +2035,12 @@ Proof.
     rewrite (read_expr_begin f skip strict m e b _ (tree_arg ng) (map tree_arg xargs) _
                W1 Hm E1 W5 Hskip).
     cbn [tree]. apply (F2 f). lia.
-  - (* item *)
-    intros e n args body Hargs Hbody skip strict m rest Hm _ Hwf Hfol Hpk.
+Qed.
+
+Lemma PP_case_item e n args body :
+  Forall PPa args -> Forall PPd body -> PPd (DItem e n args body).
+Proof.
+    intros Hargs Hbody skip strict m rest Hm _ Hwf Hfol Hpk.
     rewrite wf_item in Hwf.
     apply andb_true_iff in Hwf. destruct Hwf as [Hwf W5].
     apply andb_true_iff in Hwf. destruct Hwf as [Hwf W4].
@@ -2030,9 +2052,12 @@ Proof.
     apply andb_true_iff in Hfol. destruct Hfol as [F1 F2].
     unfold peek_ok in Hpk. cbn [is_item] in Hpk.
     destruct (item_facts n W3) as (Hsig & Hsp & Hn).
-    rewrite <- Hsig in W4, F1.
+    assert (W4' : cmd_shape (signature_of (ttext n)) args = true)
+      by (rewrite Hsig; exact W4).
+    assert (F1' : cmd_follow (signature_of (ttext n)) args (flat_list body ++ rest) = true)
+      by (rewrite Hsig; exact F1).
     destruct (cmd_head_read n args Hargs strict m (flat_list body ++ rest)
-                Hm Hsp W4 W5 F1) as [f1 G1].
+                Hm Hsp W4' W5 F1') as [f1 G1].
     destruct (seq_item body Hbody [] rest F2 F3 Hpk) as [f2 G2].
     exists (S (Nat.max f1 f2)). intros f Hf. destruct f as [|f]; [lia|].
     rewrite flat_item. rewrite <- !app_comm_cons, <- app_assoc.
@@ -2040,8 +2065,18 @@ Proof.
     cbn [tree]. rewrite Hn.
     apply (read_expr_item f skip strict m e n _ _ _ _ rest W2 W1 E1).
     apply (G2 f). lia.
-  - (* argument group *)
-    intros sp k o b c Hb. apply arg_group. exact Hb.
+Qed.
+
+Theorem PP_all : forall d, PPd d.
+Proof.
+  apply (doc_ind' PPd PPa).
+  - exact PP_case_leaf.
+  - exact PP_case_group.
+  - exact PP_case_cmd.
+  - exact PP_case_math.
+  - exact PP_case_env.
+  - exact PP_case_item.
+  - intros sp k o b c Hb. apply arg_group. exact Hb.
 Qed.
 
 Lemma PP_Forall ds : Forall PPd ds.
